@@ -437,7 +437,8 @@ def search_read_request(ob, seed):
 
 
 @unit("C05.O3 _read_request lets only answerable or connection-ending exceptions out", targets=["vgi_rpc/rpc/_wire.py::_read_request", "vgi_rpc/shm.py::resolve_shm_batch", "vgi_rpc/shm.py::is_shm_pointer_batch"], replay=replay_read_request, search=search_read_request, min_obligations=40, max_paths=40000)
-def read_request(S):
+def read_request(S, extra=None):
+    """extra(S, out, info): further obligations over the same run (C06 states its carrier obligation this way)."""
     import pyarrow.ipc as ipc
     from vgi_rpc.utils import ValidatedReader
 
@@ -475,6 +476,11 @@ def read_request(S):
     num_rows = S.int("num_rows")
     S.assume(num_rows >= 0)
     batch = SObj(None, kind="Batch", schema=schema, num_rows=num_rows)
+    # what a shared-memory pointer request resolves to: another batch object with its own schema object (same shape)
+    schema_p = SObj(None, kind="Schema", fields=[SObj(None, kind="Field", name=nm) for nm in names], names=list(names))
+    num_rows_p = S.int("num_rows_payload")
+    S.assume(num_rows_p >= 0)
+    payload = SObj(None, kind="Batch", schema=schema_p, num_rows=num_rows_p)
     as_py_raises = S.choose(2) == 1
     S.inputs["as_py_raises"] = as_py_raises
 
@@ -484,7 +490,9 @@ def read_request(S):
             hits = [i for i, nm in enumerate(names) if nm is key or (n_cols == 2 and dup)]
             if n_cols == 2 and dup:
                 raise PyRaise(SExc(KeyError, ("Field exists 2 times in schema",)))
+            S.event("column_read", b)
             return SObj(None, kind="Column")
+        S.event("column_read", b)
         return SObj(None, kind="Column")
 
     S.handlers["Batch.column"] = column
@@ -533,7 +541,7 @@ def read_request(S):
         return SObj(None, kind="Buffer")
 
     S.handlers["Segment.read_buffer"] = read_buffer
-    S.handlers["_deserialize_from_shm"] = lambda S, buf, schema_: (raise_(pa.ArrowInvalid, "garbage in region") if S.choose(2) == 1 else batch)
+    S.handlers["_deserialize_from_shm"] = lambda S, buf, schema_: (raise_(pa.ArrowInvalid, "garbage in region") if S.choose(2) == 1 else payload)
     S.handlers["Segment.free"] = lambda S, sg, off: S.event("freed", off)
     S.handlers["strip_keys"] = lambda S, cm, *keys: cm
     S.handlers["merge_metadata"] = lambda S, *mds: mds[0]
@@ -543,6 +551,9 @@ def read_request(S):
     S.handlers["Logger.isEnabledFor"] = lambda S, *a: False
     out = S.outcome(wire._read_request, SObj(None, kind="RawReader"), "full", None, shm=seg, attach_shm=None)
     names_ev = [e[0] for e in S.trace]
+    if extra is not None:
+        extra(S, out, {"batch": batch, "payload": payload, "store": S.ghost.get("__ctxvars__", {})})
+        return
     if out.raised:
         from vgi_rpc.rpc._common import RpcError as _RpcError
         from vgi_rpc.rpc._common import VersionError as _VersionError
